@@ -14,6 +14,9 @@ CONSTANTS
   BitmapExcludeExact = TRUE
   ProvidersAgree = TRUE
   DeleteDropsPacked = TRUE
+  BitmapHonoursShallow = TRUE
+  CgOctopusOk = TRUE
+  MaxParents = 2
   CgHonoursShallow = FALSE
   Focus = "all"
 INVARIANT TypeOK
